@@ -230,18 +230,11 @@ func TestVerifC28E2E(t *testing.T) {
 	r.Assumption("end-to-end part: events are atomic; net.Pipe instead of TCP; the ProtoServer read loop is mirrored by the harness responder; the remote server socket is never started")
 	one := func(id string, to time.Duration) c28eOp { return c28eOp{ids: []string{id}, timeout: to} }
 	scs := []c28eScenario{
-		{name: "e2e/3callers/3conns/ask+ask+batchask", conns: 3, bound: 1, ops: [][]c28eOp{
+		{name: "e2e/3callers/3conns/ask+ask+batchask", conns: 3, bound: vsched.Pick(1, 2), ops: [][]c28eOp{
 			{one("ask-a1", time.Second), one("ask-a2", time.Second)},
 			{one("ask-b1", time.Minute)},
 			{{ids: []string{"ask-c1", "ask-c2", "ask-c3"}, timeout: time.Second}},
 		}},
-	}
-	if r.Thorough() {
-		scs = append(scs, c28eScenario{name: "e2e/3callers/3conns/two-rounds", conns: 3, bound: 2, ops: [][]c28eOp{
-			{one("ask-a1", time.Second), one("ask-a2", time.Second)},
-			{one("ask-b1", time.Minute), {ids: []string{"ask-b2", "ask-b3"}, timeout: time.Second}},
-			{{ids: []string{"ask-c1", "ask-c2", "ask-c3"}, timeout: time.Second}, one("ask-c4", time.Second)},
-		}})
 	}
 	var all []vsched.Scenario
 	for _, sc := range scs {
